@@ -26,7 +26,7 @@ where
     Policies<T>: ReadXml,
 {
     let mut reader = NsReader::from_str(msg);
-    _ = reader.trim_text(true);
+    _ = reader.trim_text(true).expand_empty_elements(true);
     let mut this = None;
     loop {
         match reader
